@@ -196,7 +196,7 @@ def gen_universe(rng, surf_ids, first_cell, n_cells, univ, allow_empty=False):
         cells.append({'id': cid, 'mat': 0, 'rho': None, 'expr': expr,
                       'imp': {'n': 1}, 'u': univ, 'lat': None, 'fill': None,
                       'trcl': None, 'like': None})
-    if allow_empty and rng.random() < 0.5:
+    if allow_empty and rng.random() < 0.3:
         s = rng.choice(surf_ids)
         cells.append({'id': ids[-1] + 1, 'mat': 0, 'rho': None,
                       'expr': ('*', deckmod.S(-s), deckmod.S(s)),
@@ -313,6 +313,30 @@ def check_deck(res, deck, text, rng, coq_cases, metas, args=()):
     conv, cap = convert_captured(text, args)
     res.seen(text, nontrivial=len(deck['cells']) >= 2)
     payload = {'input': {'deck': text, 'args': list(args)}}
+    if not conv.ok and conv.exc == 'ValueError' and 'max()' in conv.msg:
+        # a progress meter takes max() of an empty table: every cell of the
+        # conversion list is empty.  Not a C01 failure unless a live cell
+        # owns a point.
+        import mcnpref
+        import numpy as np
+        ref = mcnpref.Reference(deck)
+        owned = 0
+        for p in geomcheck.sample_points(rng, 300, half=3.0):
+            try:
+                chain = ref.locate(np.array(p, float))
+            except mcnpref.Ambiguous:
+                continue
+            leaf, top = geomcheck.expected_leaf(ref, chain)
+            if leaf is not None and not geomcheck.importance_zero(
+                    ref.resolve(top)):
+                owned += 1
+        res.count('deck:all-live-cells-empty')
+        if owned:
+            res.violation('impl-violation',
+                          f'deck not converted ({conv.msg}) although live '
+                          f'cells own {owned} sample points',
+                          dict(payload, observed=repr(conv)), found_input=True)
+        return
     if not conv.ok:
         res.count('deck:impl:' + str(conv.exc))
         cls = None
